@@ -58,6 +58,20 @@ def run(ctx):
     never = spec_points - set(s["points"])
     if never and not q:
         raise vlib.Infra("hook/spec step mismatch: spec steps never crashed at: %s" % sorted(never))
+    # fixed corpus (specs/mkvs/corpus): histories whose crash scenarios must run in every tier and with every seed, whatever
+    # representative histories TLC happened to pick (its choice among equivalent predecessors varies from run to run).
+    # crash_prune_lone: Prune of a version whose roots have no derived roots (IO roots of every runtime round are such roots).
+    cout = ctx.path("crash-corpus.json")
+    cscratch = ctx.path("crashdbs-corpus")
+    os.makedirs(cscratch)
+    vlib.run_vh(ctx, ["nodedb-crash", "-in", os.path.join(vlib.VERIF, "specs", "mkvs", "corpus", "crash_prune_lone.ndjson"), "-out", cout,
+                      "-every", "1", "-last", "3", "-scratch", cscratch])
+    cs = json.load(open(cout))
+    if cs["infra"] or cs["scenarios"] < 40 or any(k.startswith("skipped") for k in cs["classes"]):
+        raise vlib.Infra("corpus crash scenarios did not all run: %s %s" % (cs["infra"], cs["classes"]))
+    ctx.log("corpus: %d scenarios, outcomes %s" % (cs["scenarios"], {k: sum(v for kk, v in cs["outcomes"].items() if kk.startswith(k)) for k in ("pre", "post")}))
+    s["fails"] = (s["fails"] or []) + (cs["fails"] or [])
+    s["scenarios"] += cs["scenarios"]
     for f in s["fails"] or []:
         keys = {"backend": f["spec"]["backend"], "kind": f["fail"]["kind"], "phase": f["phase"]}
         vlib.report(ctx, "crash at %s (step %d, %s): %s: %s" % (f["spec"]["point"], f["spec"]["step"], f["spec"]["backend"], f["phase"], f["fail"]["msg"][:500]),
